@@ -88,7 +88,7 @@ rt_eps!(rt_eps_gm_1, GM<u16>, 2, 48, 4, 1);
 rt_eps!(rt_eps_vec_u16_1, Vec<u16>, 3, 48, 5, 1);
 // @h rt_eps_box_u64_3 props=C02,C03,C07 tier=quick kind=bounded bound="len<=2" vars="v:Box<[u64]>, pos0=3" fns="impls/boxed_slice.rs,deser/helpers.rs:deserialize_eps_slice_zero"
 rt_eps!(rt_eps_box_u64_3, Box<[u64]>, 2, 64, 9, 3);
-// @h rt_eps_vec_opt_u8_1 props=C02,C07 tier=quick kind=bounded bound="len<=3" vars="v:Vec<Option<u8>>, pos0=1" fns="deser/helpers.rs:deserialize_eps_vec_deep"
+// @h rt_eps_vec_opt_u8_1 props=C02,C07 tier=thorough kind=bounded bound="len<=3" vars="v:Vec<Option<u8>>, pos0=1" fns="deser/helpers.rs:deserialize_eps_vec_deep"
 rt_eps!(rt_eps_vec_opt_u8_1, Vec<Option<u8>>, 3, 48, 5, 1);
 // @h rt_eps_vec_vec_u16_1 props=C02,C03,C07 tier=thorough kind=bounded bound="outer<=2, inner<=2" vars="v:Vec<Vec<u16>>, pos0=1" fns="deser/helpers.rs:deserialize_eps_vec_deep"
 rt_eps!(rt_eps_vec_vec_u16_1, Vec<Vec<u16>>, 2, 64, 4, 1);
